@@ -116,6 +116,10 @@ def add_new_component(net, component, overwrite=False):
     name = component.table_name()
     if not overwrite and name in net:
         # logger.info('%s is already in net. Try overwrite if you want to get a new entry' %name)
+        if component not in net['component_list']:
+            # the table is there, but the component is not registered (e.g. a subnet selected from
+            # a net with a reduced component list): without this its elements would be ignored
+            net['component_list'].append(component)
         return
     else:
         if hasattr(component, 'geodata'):
